@@ -114,7 +114,10 @@ class Link(base.BaseObject):
         :param kill: the vertex to unlink
         """
         if kill in self._vertices:
-            self._vertices.remove(kill)
-
-            if kill is not None:
+            if kill is None:
+                self._vertices.remove(kill)
+            else:
+                # a vertex may be listed more than once (e.g. a self-loop);
+                # it is detached from the link altogether
+                self._vertices = [v for v in self._vertices if v is not kill]
                 kill.remove_from_link(self)
